@@ -125,7 +125,10 @@ class NumeralTerm(Term):
 
 class VariableTerm(Term):
     def __init__(self,s):
-        self.varname = s
+        # varname is the name of the variable in the generated Python code. The prefix keeps
+        # Prolog variables apart from Python's own names (True, False, None) and from the
+        # names the engine provides to the generated code (ATOM_NIL).
+        self.varname = 'V_' + s
     def __str__(self):
         return self.varname
     @property
